@@ -7,6 +7,7 @@
 //   deckparse <scripts.ndjson> <out.ndjson> <workdir> [roundtrip]
 // script: {"id", "files": {"MAIN.DATA": text, "INC1.INC": text, ...}}
 #include "common.hpp"
+#include <cmath>
 
 #include <opm/common/OpmLog/OpmLog.hpp>
 #include <opm/input/eclipse/Deck/Deck.hpp>
@@ -37,11 +38,13 @@ static json project_item(const Opm::DeckItem& it) {
     j["type"] = type;
     // DeckItem keeps one buffer that is converted in place between deck units and SI on demand
     // (get<double>(i) returns whatever the buffer holds), so take all deck values first, then all SI values
-    std::vector<double> raw, si;
+    std::vector<double> raw, si, raw2, si2;
     bool has_si = false;
     if (type == "double" && n > 0) {
         raw = it.getData<double>();
         try { si = it.getSIDoubleData(); has_si = true; } catch (const std::exception&) {}
+        // ... and once more there and back: the conversion between deck units and SI is invertible
+        if (has_si) { raw2 = it.getData<double>(); si2 = it.getSIDoubleData(); }
     }
     for (std::size_t i = 0; i < n; ++i) {
         json e = {{"def", it.defaultApplied(i)}};
@@ -52,6 +55,8 @@ static json project_item(const Opm::DeckItem& it) {
             else if (type == "double") {
                 e["v"] = hexd(raw[i]);
                 e["si"] = has_si ? json(hexd(si[i])) : json("none");
+                if (has_si) e["again"] = (raw2[i] == raw[i] || std::abs(raw2[i] - raw[i]) <= 1e-12 * std::abs(raw[i]))
+                                      && (si2[i] == si[i] || std::abs(si2[i] - si[i]) <= 1e-12 * std::abs(si[i]));
             } else if (type == "uda") {
                 const auto u = it.get<Opm::UDAValue>(i);
                 if (u.is<std::string>()) e["v"] = u.get<std::string>();
